@@ -13,9 +13,12 @@ echo "== demo without change"; (cd /var/tmp && PYTHONPATH=$wt/src /venv/bin/pyth
 git apply $dst/patch.diff
 cd /verif
 git -C /repo apply $dst/patch.diff || { echo "PATCH DOES NOT APPLY to /repo"; exit 3; }
+# evidence files are rewritten by every run: keep the clean-tree ones
+evbak=$(mktemp -d /var/tmp/evbak.XXXX); cp /verif/evidence/*.json $evbak/
 for c in ${checks//,/ }; do
   echo "== check $c ($tier) with seed applied"
   ./check $c --tier $tier 2>&1 | grep -v "^KNOWN-FINDING" | cut -c1-330 | tail -4
 done
+cp $evbak/*.json /verif/evidence/; rm -rf $evbak
 git -C /repo checkout -- . ; git -C /repo status --short | head -3
 rm -rf /verif/replays
